@@ -4,7 +4,7 @@
    the indices are strictly increasing (and > k), which is what sort_indices()
    establishes.  Values are exact integers. *)
 From Coq Require Import ZArith List Bool Lia.
-From PV Require Import SparseOps C08Proofs.
+From PV Require Import SparseOps C08Proofs Lattice LatticeProofs.
 Import ListNotations.
 Open Scope Z_scope.
 
@@ -53,4 +53,41 @@ Example C08_example :
   sparse_mul [(0, 2); (3, -1); (5, 4)] [(3, 1); (4, 7)] = [(3, -1)] /\
   sparse_dot_product [(0, 2); (3, -1); (5, 4)] [(3, 1); (4, 7)] = -1 /\
   fast_intersection_size [0; 3; 5] [3; 4] = 1.
+Proof. vm_compute. repeat split; reflexivity. Qed.
+
+(* ------------------------------------------------------------------------------
+   The property itself for the polynomial family: the sparse kernel applied to the
+   CSR encodings [sparsify 0 x], [sparsify 0 y] of two vectors returns exactly what the
+   dense kernel returns on the vectors - for ALL integer vectors of all lengths, hence
+   for every pair of supports (empty, identical, disjoint, nested, overlapping).
+   Route: sparse_diff of two encodings IS the encoding of the pointwise difference
+   (sorted sparse vectors without stored zeros are canonical), and the accumulators
+   skip exactly the entries that contribute nothing. *)
+Theorem C08_sparse_output_has_no_stored_zero : forall a b, nz (sparse_sum a b) /\ nz (sparse_diff a b).
+Proof. intros a b. split; [apply nz_sparse_sum | apply nz_sparse_diff]. Qed.
+Print Assumptions C08_sparse_output_has_no_stored_zero.
+
+Theorem C08_canonical : forall v w k,
+  sorted_gt k v -> nz v -> sorted_gt k w -> nz w -> (forall i, sget v i = sget w i) -> v = w.
+Proof. exact canonical. Qed.
+Print Assumptions C08_canonical.
+
+Theorem C08_sparse_diff_of_encodings : forall x y s, length x = length y ->
+  sparse_diff (sparsify s x) (sparsify s y) = sparsify s (sub2 x y).
+Proof. exact sparse_diff_sparsify. Qed.
+Print Assumptions C08_sparse_diff_of_encodings.
+
+Theorem C08_sparse_eq_dense : forall x y, length x = length y ->
+  sparse_squared_euclidean (sparsify 0 x) (sparsify 0 y) = squared_euclidean x y /\
+  sparse_manhattan (sparsify 0 x) (sparsify 0 y) = manhattan x y /\
+  sparse_chebyshev (sparsify 0 x) (sparsify 0 y) = chebyshev x y /\
+  sparse_hamming (sparsify 0 x) (sparsify 0 y) (Z.of_nat (length x)) = hamming x y.
+Proof. exact sparse_eq_dense. Qed.
+Print Assumptions C08_sparse_eq_dense.
+
+Example C08_lattice_example :
+  sparsify 0 [3; 0; 0; 2; -1] = [(0, 3); (3, 2); (4, -1)] /\
+  sparse_diff (sparsify 0 [3; 0; 0; 2; -1]) (sparsify 0 [3; 0; 5; 0; -1]) = [(2, -5); (3, 2)] /\
+  sparse_manhattan (sparsify 0 [3; 0; 0; 2; -1]) (sparsify 0 [3; 0; 5; 0; -1]) = 7 /\
+  sparse_hamming (sparsify 0 [3; 0; 0; 2; -1]) (sparsify 0 [3; 0; 5; 0; -1]) 5 = (2, 5).
 Proof. vm_compute. repeat split; reflexivity. Qed.
